@@ -116,9 +116,14 @@ type bankWrap struct {
 	rec  *Recorder
 }
 
+// GetBalance cannot fail; the injected fault is a wrong answer (one unit too many), which is what
+// makes the forwarder's balance precondition (or the sweep) fail.
 func (b bankWrap) GetBalance(ctx context.Context, addr sdk.AccAddress, denom string) sdk.Coin {
-	b.rec.hit("bank.GetBalance", addr.String()+" "+denom)
-	return b.real.GetBalance(ctx, addr, denom)
+	c := b.real.GetBalance(ctx, addr, denom)
+	if err := b.rec.hit("bank.GetBalance", addr.String()+" "+denom); err != nil {
+		c.Amount = c.Amount.AddRaw(1)
+	}
+	return c
 }
 
 func (b bankWrap) SendCoinsFromModuleToModule(ctx context.Context, from, to string, amt sdk.Coins) error {
